@@ -262,7 +262,7 @@ LATE = {
     'C15': "Added late: the typed setters skip an unchanged value only when init is false (R15.9); setSettings() does not overwrite the stored settings before calling the setters (R15.10); a setter arm that changes the stored LPs invalidates the solution (R15.11); a # that ends the value token starts a comment (R15.12); conversions consume the whole token and the type token is compared exactly (R15.13); no value is forwarded through a pointer that another parameter re-targets (R15.14); no == / != against realParam(INFTY) (R15.15).",
     'C16': "Added late: every terminal arm of _evaluateResult() clears the row objectives of the refined LP (R16.7); the undo functions of the exact solver subscript the solution vectors only under a condition that says a solution exists (R16.8).",
     'C17': "Added late: an array-of-pointers member copied verbatim is re-bound elementwise by the copy operation of the owning class (R17.12); nothing SoPlexBase::operator= executes after copying status and solution reaches _invalidateSolution() (R17.13); the owned rational LP is released on every path to its re-allocation (R17.14); SLUFactor / SLUFactorRational::assign() re-dimension the temporary vectors they do not copy (R17.15).",
-    'C19': "Added late: compound assignment operators (R19.9), key/number inverse maps (R19.10), copying a set of empty vectors (R19.11), no clear() after num was overwritten (R19.12), a one-statement while loop steps the counter its guard tests (R19.13), has(DataKey) range-checks (R19.14), a loop filling a fresh block is not bounded by the old capacity alone (R19.15), loops over theitem are bounded by size() (R19.16), no bounds-asserting subscript to form an address for setMem() (R19.17), reMax() clamps against the size in effect (R19.18), filling members of SVectorBase set the size (R19.19), Array::insert at begin() + i (R19.20).",
+    'C19': "Added late: compound assignment operators (R19.9), key/number inverse maps (R19.10), copying a set of empty vectors (R19.11), no clear() after num was overwritten (R19.12), a one-statement while loop steps the counter its guard tests (R19.13), has(DataKey) range-checks (R19.14), a loop filling a fresh block is not bounded by the old capacity alone (R19.15), loops over theitem are bounded by size() (R19.16), no bounds-asserting subscript to form an address for setMem() (R19.17), reMax() clamps against the size in effect (R19.18), filling members of SVectorBase set the size (R19.19), Array::insert at begin() + i (R19.20), the open-addressing invariants of DataHashTable - the end-of-chain status is assigned only by a loop over all slots so remove() leaves a tombstone, m_used follows every single-slot status change, add() and index() walk the same probe sequence (R19.21-R19.23).",
     'C20': "Added late: every undo of an LP extension of the exact solver re-dimensions the solution vectors of the extended kind on every path, because the getters behind SoPlex_get*Real copy the whole vector into the caller's array (R20.7); memory from new held in a local pointer of a C function is deleted on every path unless returned (R20.8).",
 }
 SHAPES = " Generic shape rules S1-S12 (rules/shapes.py: infinity comparisons, position-or-minus-one tests, loop bounds, sparse position/index, mirror chains and mirror sibling functions, sense ternaries, comparators, row/column loop domains, argument selection, mirror switch arms) are reported under the property that owns the function."
